@@ -4,8 +4,15 @@
 //!   key = index of the packet's sharding identity (TCP pool: sending host; TLS: directed 4-tuple; HTTP: connection)
 //!   sequential token = result token of that packet in the sequential run (recorded by `gen` with the real code)
 //!   events (used by the MODEL only): d = dispatch next packet, w<k> = worker k handles one queued packet
+//!   kind L (TLS only):  l W <workers> B <batch> T <timeout> L <cap per worker> <worker|x>:<frame hex> ... S <event> ...
+//!   worker = what the real packet_hash::hash_flow names for that frame (x = None: the pool discards it); the MODEL is
+//!   the CONCRETE TLS pool (coq/Model/PoolConcrete.v) under the schedule; run = real WorkerPool with that capacity,
+//!   result tokens (concrete::tls_pool_token) sorted and joined by ';'
 //! run: real WorkerPool of that crate -> sorted result tokens joined by ','; `!pool …` when the pool's results
 //!   differ from the sequential ones as a multiset or in the order of any identity.
+#[path = "../../c07/src/concrete.rs"]
+#[allow(dead_code)]
+mod concrete;
 use cflow::*;
 use hnv_common::*;
 use huginn_net_db::Database;
@@ -146,10 +153,24 @@ fn seq_texts(kind: Kind, frames: &[Vec<u8>], db: &Database) -> Vec<String> {
     frames.iter().map(|f| a.packet(f, CLOCK)).collect()
 }
 
+fn run_l(toks: &[&str], workers: usize, batch: usize, timeout: u64) -> String {
+    let cap: usize = toks[8].parse().unwrap();
+    let spos = toks.iter().position(|t| *t == "S").unwrap();
+    let frames: Vec<Vec<u8>> = toks[9..spos].iter().map(|t| unhex(t.rsplit(':').next().unwrap())).collect();
+    let (tx, rx) = channel();
+    let pool = match huginn_net_tls::WorkerPool::new(workers, 4096, batch, timeout, tx, cap, None) { Ok(p) => p, Err(e) => return format!("POOLERR {}", e) };
+    for f in &frames { if let huginn_net_tls::DispatchResult::Dropped = pool.dispatch(f.clone()) { return "POOLERR dropped".into(); } }
+    let mut r = collect(&rx, &|| pool.stats().workers.iter().all(|w| w.queue_size == 0), &|x| concrete::tls_pool_token(x));
+    pool.shutdown();
+    r.sort();
+    if r.is_empty() { "-".into() } else { r.join(";") }
+}
+
 fn run(line: &str) -> String {
     let toks: Vec<&str> = line.split(' ').collect();
     let kind = Kind::from(toks[0]);
     let workers: usize = toks[2].parse().unwrap(); let batch: usize = toks[4].parse().unwrap(); let timeout: u64 = toks[6].parse().unwrap();
+    if toks[7] == "L" { return run_l(&toks, workers, batch, timeout); }
     let spos = toks.iter().position(|t| *t == "S").unwrap();
     let frames: Vec<Vec<u8>> = toks[8..spos].iter().map(|t| unhex(t.rsplit(':').next().unwrap())).collect();
     DB.with(|db| {
@@ -217,6 +238,19 @@ fn gen(r: &mut Rng, tier: &Tier, out: &mut Vec<String>) {
         let mut left = frames.len();
         while left > 0 { if r.chance(2, 3) { line.push_str(" d"); left -= 1; } else { line.push_str(&format!(" w{}", r.below(workers as u64))); } }
         out.push(line);
+        // the same trace against the CONCRETE TLS pool model: the worker of every frame from the real flow hash
+        if kind == Kind::Tls {
+            let cap = if case % 4 == 1 { 1 + r.below(3) as usize } else { 1000 };
+            let mut l = format!("l W {} B {} T {} L {}", workers, batch, timeout, cap);
+            for f in &frames {
+                let w = match huginn_net_tls::packet_hash::hash_flow(f, workers) { Some(w) => w.to_string(), None => "x".into() };
+                l.push_str(&format!(" {}:{}", w, hex(f)));
+            }
+            l.push_str(" S");
+            let mut left = frames.len();
+            while left > 0 { if r.chance(2, 3) { l.push_str(" d"); left -= 1; } else { l.push_str(&format!(" w{}", r.below(workers as u64))); } }
+            out.push(l);
+        }
     }
 }
 fn is_response(frame: &[u8]) -> bool { frame.windows(8).any(|w| w == b"HTTP/1.1" ) && frame.windows(6).any(|w| w == b"200 OK") }
